@@ -268,3 +268,31 @@ def state_key(root: M.RawModel) -> int:
     """Canonical state hash for deduplication of histories (identity abstracted to position)."""
     from . import core
     return core.h64(snapshot(root, ids=False))
+
+
+def glued_pairs(store: Any) -> tuple[set[tuple[int, int]], set[int]]:
+    """(pairs of visible tokens that touch - no blank or line break between them, ids of all visible tokens)"""
+    pairs: set[tuple[int, int]] = set()
+    ids: set[int] = set()
+    prev = None
+    gap = True
+    for t in store:
+        if not t.raw_text:
+            continue
+        if isinstance(t, (M.Whitespace, M.Newline)):
+            gap = True
+            continue
+        ids.add(id(t))
+        if prev is not None and not gap:
+            pairs.add((id(prev), id(t)))
+        prev, gap = t, False
+    return pairs, ids
+
+
+def newly_glued(pre: tuple[set, set], store: Any) -> list[tuple[Any, Any]]:
+    """pairs of tokens that both existed before the edit, did not touch then, and touch now (the edit took away what
+    separated them)"""
+    pre_pairs, pre_ids = pre
+    by_id = {id(t): t for t in store}
+    now, _ = glued_pairs(store)
+    return [(by_id[a], by_id[b]) for a, b in now if a in pre_ids and b in pre_ids and (a, b) not in pre_pairs]
